@@ -345,50 +345,81 @@ class HasDataInterp(FlowInterp):
 
 @rule("HD1", "whichever way an object's index is restated, the object left in the segment's list has the has_data the header demands", floor=6)
 def hd1(ctx, R):
+    """Abstract interpretation (sa/objinterp.py) of the two functions that restate an object's raw data index, for every header kind and
+    both initial flags: paths are enumerated through helpers; objects are the incoming one, its copies and newly constructed ones; the
+    object finally in the list must carry the flag the header demands, and the incoming (shared) object must not be modified."""
+    from .objinterp import ObjInterp, Path, UNKNOWN
     prog = ctx.prog
     mod = prog.module("tdms_segment")
     consts = {}
     for name, kind in (("RAW_DATA_INDEX_NO_DATA", "NO_DATA"), ("RAW_DATA_INDEX_MATCHES_PREVIOUS", "MATCHES")):
-        if name not in mod.assigns:
+        v = prog.try_fold(ast.Name(id=name, ctx=ast.Load()), mod, default=None)
+        if v is None:
             raise AnchorMissing("tdms_segment.%s" % name)
-        consts[name] = kind
+        consts[v] = kind
     want = {"NO_DATA": False, "MATCHES": True, "NEW_INDEX": True}
-    for q, kept_param in (("tdms_segment.TdmsSegment._update_existing_object", "existing_object"),
-                          ("tdms_segment.TdmsSegment._reuse_previous_object", None)):
+    for q in ("tdms_segment.TdmsSegment._update_existing_object", "tdms_segment.TdmsSegment._reuse_previous_object"):
         fi = prog.func(q)
-        hdr = "raw_data_index_header"
-        if hdr not in fi.params:
-            raise AnchorMissing("%s parameter raw_data_index_header" % q)
-        obj_param = [p for p in fi.params if p not in ("self", hdr, "file", "endianness", "existing_object_index")]
-        if not obj_param:
-            raise AnchorMissing("%s: object parameter" % q)
-        obj_param = kept_param or obj_param[0]
+        params = [p_ for p_ in fi.params if p_ != "self"]
+        hdr = None
+        for n in ast.walk(fi.node):
+            if isinstance(n, ast.Compare) and len(n.ops) == 1:
+                for a, b in ((n.left, n.comparators[0]), (n.comparators[0], n.left)):
+                    if isinstance(a, ast.Name) and a.id in params and prog.try_fold(b, mod, default="?") in consts:
+                        hdr = a.id
+        if hdr is None:
+            raise AnchorMissing("%s: parameter compared with the RAW_DATA_INDEX_* constants" % q)
+        objs = [p_ for p_ in params if p_ != hdr and any(isinstance(n, ast.Attribute) and isinstance(n.ctx, ast.Load) and isinstance(n.value, ast.Name) and n.value.id == p_
+                                                      and n.attr not in ("read", "seek", "tell") for n in ast.walk(fi.node))]
+        if len(objs) != 1:
+            raise AnchorMissing("%s: the object parameter (candidates %s)" % (q, objs))
+        obj_param = objs[0]
+        replaces = any(isinstance(n, ast.Subscript) and isinstance(n.ctx, ast.Store) and isinstance(n.value, ast.Attribute) and n.value.attr == "ordered_objects"
+                       for n in ast.walk(fi.node))
         for kind in ("NO_DATA", "MATCHES", "NEW_INDEX"):
             for initial in (True, False):
-                interp = HasDataInterp(prog, fi, hdr, consts)
-                st0 = frozenset([("@hdr", kind), (obj_param, initial)])
-                outs = interp.run_func(fi, fi.cls, frozenset([st0]))
+                interp = ObjInterp(prog, mod, kind, consts)
+                p0 = Path()
+                p0.flags["IN"] = initial
+                args = {p_: UNKNOWN for p_ in params}
+                args[obj_param] = ("obj", "IN")
+                args[hdr] = ("hdr",)
                 key = "%s::header=%s, previous has_data=%s" % (q, kind, initial)
+                try:
+                    outs = interp.run(fi, fi.cls, args, p0)
+                except RuntimeError as e:
+                    R.undecided(key, fi.where(), "not analysed: %s" % e)
+                    continue
                 bad = None
+                unknown = None
                 for st in outs:
-                    placed = interp.get(st, "@placed")
+                    placed = st.placed
                     if placed is None:
-                        if kept_param is None:
+                        if not replaces:
                             bad = "no object is appended to the segment's list on some path"
                             break
-                        placed = kept_param   # the object already in the list stays
-                    val = interp.get(st, placed)
-                    if val is not want[kind]:
-                        bad = "the object left in the list (`%s`) has has_data=%s but the header kind %s requires %s" % (
-                            placed, "unknown" if val is None else val, kind, want[kind])
+                        placed = ("obj", "IN")      # the object already in the list stays
+                    if st.flags.get("IN") is not initial:
+                        bad = "the incoming object, which earlier segments share, has its has_data changed in place (to %s)" % st.flags.get("IN")
+                        break
+                    if placed[0] != "obj":
+                        unknown = "the value placed in the list is not understood%s" % ("; " + "; ".join(st.notes) if st.notes else "")
+                        continue
+                    val = st.flags.get(placed[1])
+                    if val is None:
+                        unknown = "has_data of the object left in the list is not determined%s" % ("; " + "; ".join(st.notes) if st.notes else "")
+                    elif val is not want[kind]:
+                        bad = "the object left in the list (%s) has has_data=%s but the header kind %s requires %s" % (
+                            {"IN": "the incoming object itself"}.get(placed[1], "a %s" % placed[1].rstrip("0123456789")), val, kind, want[kind])
                         break
                 if not outs:
                     bad = "no normal exit"
                 if bad:
-                    R.violation(key, fi.where(), bad + ": the segment would %s data for this channel" % (
-                        "miss" if want[kind] else "invent"))
+                    R.violation(key, fi.where(), bad + ": the segment would %s data for this channel" % ("miss" if want[kind] else "invent"))
+                elif unknown:
+                    R.undecided(key, fi.where(), unknown)
                 else:
-                    R.ok(key, fi.where(), "every path leaves an object with has_data=%s in the list" % want[kind])
+                    R.ok(key, fi.where(), "every path (%d) leaves an object with has_data=%s in the list" % (len(outs), want[kind]))
 
 
 # ---------------------------------------------------------------------------
